@@ -91,6 +91,21 @@ CHECKS = {
         text="Generated devices/periods and generated histories of advance(delta)/set(value) steps (deltas around P, repeated timestamps, 2^32 wrap-around) are run against the compiled generated scheduler in a fresh process per history; the frames handed to the callback after every step must equal the reference automaton's output and the reference encoding of the current values.",
         note="Trusted: the reference automaton (from the statement), reflayout packing, gcc.",
         ref="4/C19"),
+    "C03": dict(
+        technique="differential testing of generated programs: generated C++ compiled with g++ and driven through a JSON-lines harness against the reference codec",
+        text="Dozens of generated schemas of 8-14 structs are rendered by fcp_cpp from the working tree and compiled as C++17 (harness TU plus a syntax-only TU including every generated header); thousands of boundary-biased values per run go through StaticSchema::EncodeJson/DecodeJson and are compared with the reference canonical bytes in both directions.",
+        note="Trusted: vlib/refcodec.py, g++, the vendored nlohmann/json. Finite floats only (JSON); enumerators <= 255; back-end-safe names.",
+        ref="4/C03"),
+    "C13": dict(
+        technique="differential testing of two generated codecs (reflection-loaded vs static) inside one compiled harness, triangulated with the reference codec",
+        text="The C03 programs are loaded a second time at run time from the reflection binary produced by the Python tool; every value is encoded and every canonical byte string decoded by both C++ codecs and the answers must coincide (enumerators by name on the run-time side) and equal the reference.",
+        note="Trusted: reference codec; the Python reflection encoder (C12) produces the binary that is loaded.",
+        ref="4/C13"),
+    "C18": dict(
+        technique="differential testing of generated programs: CAN frame wrappers (static and reflection-loaded) against frames built from the reference codec, plus non-matching frames",
+        text="Generated CAN programs with 2-6 bindings, ids 0..2047 and bus names of 1-4 characters: Encode must give the binding's id, NUL-padded bus, dlc and canonical data; Decode must return the name and value; frames whose (id, bus) matches no binding must be unknown; static and run-time schemas must agree.",
+        note="Bindings without a bus are only used as non-matching controls (their tag is not defined by the statement).",
+        ref="4/C18"),
 }
 
 PENDING = {}
